@@ -385,6 +385,7 @@ OPS = {
     'g.mask_data': ('genome', 'rows', lambda fx, rows, arg: _gi(fx, rows).get_mask().get_data(), False, False),
     'g.merged': ('genome', 'rows', lambda fx, rows, arg: _gi(fx, rows).merged(arg).get_data(), False, True),
     'g.clip': ('genome', 'rows', lambda fx, rows, arg: _gi(fx, M.overhang(rows)).clip().get_data(), False, False),
+    'g.clip_right': ('genome', 'rows', lambda fx, rows, arg: _gi(fx, M.overhang_right(rows)).clip().get_data(), False, False),
     'g.extend': ('genome', 'rows', lambda fx, rows, arg: _gi(fx, rows, True).extended_to_size(arg).get_data(), True, False),
     'g.sorted': ('genome', 'rows', lambda fx, rows, arg: _gi(fx, rows).sorted().get_data(), False, False),
     'g.location': ('genome', 'locs', lambda fx, rows, arg: _gi(fx, rows, arg[1]).get_location(arg[0]), None, False),
@@ -411,8 +412,8 @@ OPS = {
                         interval_table(M.sort_key_rows(M.mirrored(rows, fx.names, fx.sizes), fx.names), False)),
                     False, True),
 }
-ALIGNED_OPS = {'g.clip', 'g.extend', 'g.location', 'g.windows', 'g.array', 'g.seq', 'geo.clip', 'geo.extend'}
-INSIDE_OPS = {'g.clip', 'g.extend', 'g.windows', 'geo.clip', 'geo.extend'}
+ALIGNED_OPS = {'g.clip', 'g.clip_right', 'g.extend', 'g.location', 'g.windows', 'g.array', 'g.seq', 'geo.clip', 'geo.extend'}
+INSIDE_OPS = {'g.clip', 'g.clip_right', 'g.extend', 'g.windows', 'geo.clip', 'geo.extend'}
 LOC_INPUT_OPS = {'g.loc_sorted', 'g.binned'}      # the input table is location_rows(rows); g.windows: if unstranded
 
 
@@ -443,7 +444,7 @@ def plan(level, order, first_pattern, geometry_too):
         add('g.mask'), add('g.pileup'), add('g.mask_data')
         for d in (0, 1, 2):
             add('g.merged', d)
-        add('g.clip'), add('g.sorted'), add('g.offsets')
+        add('g.clip'), add('g.clip_right'), add('g.sorted'), add('g.offsets')
         add('geo.mask'), add('geo.pileup'), add('geo.sort'), add('geo.jaccard')
         for d in (0, 1, 2):
             add('geo.merge', d)
@@ -476,7 +477,7 @@ def plan(level, order, first_pattern, geometry_too):
     else:
         add('g.mask'), add('g.sorted'), add('g.array', ('distinct', True)), add('geo.sort')
         if full or std:
-            add('g.loc_sorted'), add('g.clip'), add('g.seq', ('fasta', True))
+            add('g.loc_sorted'), add('g.clip'), add('g.clip_right'), add('g.seq', ('fasta', True))
         if full:
             add('g.pileup'), add('g.extend', 2), add('g.location', ('stop', True)), add('g.windows', ('flank', 1, True))
             add('g.seq', ('dict', True)), add('geo.mask')
@@ -577,6 +578,8 @@ def model(fx, mode, op, arg, rows):
             out[c] = M.merged(ivs, S, arg)
         elif op in ('g.clip', 'geo.clip'):
             out[c] = M.clip([(a - 1, b + 1) for a, b in ivs], S)
+        elif op == 'g.clip_right':
+            out[c] = M.clip([(a, b + 1) for a, b in ivs], S)
         elif op in ('g.extend', 'geo.extend'):
             out[c] = M.extend([(a, b, s) for _, a, b, s in rc], arg, S)
         elif op == 'g.sorted':
@@ -1097,6 +1100,7 @@ REPRO_CALL = {
     'g.mask_data': 'print(gi.get_mask().get_data())',
     'g.merged': 'print(gi.merged(ARG).get_data())',
     'g.clip': 'print(genome.get_intervals(bnp.Interval(chrom, start - 1, stop + 1)).clip().get_data())',
+    'g.clip_right': 'print(genome.get_intervals(bnp.Interval(chrom, start, stop + 1)).clip().get_data())',
     'g.extend': 'print(gs.extended_to_size(ARG).get_data())',
     'g.sorted': 'print(gi.sorted().get_data())',
     'g.location': 'print((gs if ARG[1] else gi).get_location(ARG[0]).data)',
